@@ -37,8 +37,9 @@ CLOSED-FORM DOMAIN (Lemmas/LayoutSmall.lean, Props/C04Small.lean, Props/C06Small
 clause of `ComposeDomain` / `FlatDomain` / `NestedDomain` follows from plain bounds on the input, `SmallObject o` (ELF64;
 < 2^16 sections and segments; section sizes and alignments, segment alignments < 2^40; a member with an explicit
 address lies in [p_vaddr, p_vaddr + 2^40)) - `smallObject_layoutNW`, `Compose.composeDomain_of_small`.  `noWrap64InB`
-(NoWrap64 of the OUTPUT) is still a Bool check that runs the layout: its closed form is stated, not proved
-(`C04.NoWrap64SmallStatement`, needs bounds on the assigned offsets/addresses and on the mem/file counters).
+(NoWrap64 of the OUTPUT) is still a Bool check that runs the layout; closed form: the section half is proved
+(`C04.save_sections_noWrap_small`: SmallObject + SmallAddrs2 => addr+size, offset+size < 2^64 for every saved section),
+the segment half (vaddr+memsz, offset+filesz) needs bounds on the mem/file counters - see families/c04.py.
 Only covered by correspondence/oracle: `Loaded` for the re-saved form of a LOADED (not created) object with
 nested segments, equality (not only >=) of reloaded memory sizes, ELF32 equidistance.
 Correspondence: family load.  Oracle: object 0 loads the image and is
